@@ -324,6 +324,15 @@ def gen_structure():
                     ti = ("I", "i", ilo, ihi, iv)
                     tp = ("P", "p", 0, 3, pt)
                     yield ("C", (len(iv), len(pt), ilo, ihi, order), (0, 4.5 if ihi > 3 else 3, (ti, tp) if order == 0 else (tp, ti)), "repr", False)
+    # the span in the file header is stated once more in every tier, and the two need not agree: a file whose header says more than all of its
+    # tiers together (annotation of a part of the recording) opens to a textgrid with the HEADER's span
+    for iv in ivs[::3]:
+        for pt in pts[::2]:
+            for flo, fhi in ((0, 6), (-1, 3), (-1, 6)):
+                for order in (0, 1):
+                    ti = ("I", "i", 0, 3, iv)
+                    tp = ("P", "p", 0, 3, pt)
+                    yield ("C", (len(iv), len(pt), "file span", flo, fhi, order), (flo, fhi, (ti, tp) if order == 0 else (tp, ti)), "repr", False)
 
 
 TINY_REL = ((0.3, 0.1 + 0.2), (2.0 ** 31 + 0.5, 2.0 ** 31 + 0.5 + 2.0 ** -20), (1700000000.5, 1700000000.50001), (2.0 ** 40, 2.0 ** 40 + 2.0 ** -7),
